@@ -65,6 +65,7 @@ Proof.
   cbn [handle]. unfold on_create.
   destruct (negb (n_any_flag B)); [intros K; inversion K|].
   destruct (ahas cid (n_dreq B)); [intros K; inversion K|].
+  destruct (ahas cid (n_circ B) || ahas cid (n_relay B) || ahas cid (n_exit B)); [intros K; inversion K|].
   destruct (n_max_joined B <=? zlen (n_relay B) + zlen (n_exit B)); [intros K; inversion K|].
   destruct (dh C (sk_of C (o_x o)) X) as [s1|]; [|intros K; inversion K].
   destruct (dh C (n_sk B) X) as [s2|]; [|intros K; inversion K].
@@ -154,6 +155,7 @@ Proof.
   { rewrite ER1. cbn [n_creq set_creq]. apply aget_aset_same. }
   rewrite (on_created_relay_l C R1 srcB (o_cid oR) (o_num oR) _ _ ce oR2 _ Q) in HR2. cbn [q_from q_to q_ident q_peer q_to_peer] in HR2.
   destruct (aget rc (n_exit R1)) as [eh|] eqn:EX; [|inversion HR2].
+  destruct (ahas rc (n_relay R1)); [inversion HR2|].
   inversion HR2; subst pid' Y' au' ce' aP. clear HR2.
   (* the originator accepts *)
   destruct (origin_accepts_l O cid u x pid (n_sk B) (sk_of C (o_x oB)) s1 s2
@@ -198,11 +200,12 @@ Qed.
 (* the removal of the relay's former exit socket does not change the keys it relays with *)
 Lemma exit_gone_keeps_keys_l R1 srcB tc num Y au ce o q eh :
   aget num (n_creq R1) = Some q -> aget (q_from q) (n_exit R1) = Some eh ->
+  ahas (q_from q) (n_relay R1) = false ->
   let R' := st (handle R1 srcB (MCreated tc num Y au ce) o) in
   node_keys (st (step R' (EvExitGone (q_from q)))) (q_from q) = h_keys eh
   /\ node_keys R' (q_from q) = h_keys eh.
 Proof.
-  intros Q EX. cbn zeta. rewrite (on_created_relay_l C R1 srcB tc num Y au ce o q Q), EX.
+  intros Q EX NR. cbn zeta. rewrite (on_created_relay_l C R1 srcB tc num Y au ce o q Q), EX, NR.
   unfold node_keys. cbn [st fst step done n_exit n_relay set_relay set_creq set_exit].
   rewrite aget_adel_same, aget_aset_same, EX. cbn. auto.
 Qed.
